@@ -9,6 +9,7 @@ EXTENDS Props, Randomization, Json
 CONSTANTS
     Topics, Descs, Mons, RecKeys, RecVals,     \* aol alphabet
     FeePayers,                                  \* fee payer choices of AddRecord: subset of Accts \cup {"none"}
+    NearProofs,                                 \* BOOLEAN: the alphabet also holds NEAR-valid proofs (a valid signature with one more byte; a deactivation proof over the stub that carries a context)
     LegacyGenesis,                              \* BOOLEAN: the chain starts with a legacy registry entry (key "dc" holding a document about "d1", as chains could
                                                 \* contain before the did/document binding was enforced; genesis validation admits it)
     ForeignVm,                                  \* BOOLEAN: update/deactivate may name a verification method of another DID
@@ -95,9 +96,17 @@ Init ==
     /\ ndel = 0
     /\ path = << >>
 
+\* "k+" names the signature of key k followed by one extra byte; DeactCtx(d) is DIDDocument{Id: d} plus the default context.  Neither is a proof
+\* of anything: the specification's ValidProof finds no key called "k+", and a deactivation is proved over DeactDoc(d) exactly.
+DeactCtx(d) == [DeactDoc(d) EXCEPT !.ex = "ctx"]
+PadKey(k) == k \o "+"
+
 ProofsFor(d, own) ==
     {[key |-> k, data |-> dt, seq |-> s] : k \in Keys, dt \in ({own} \cup {DeactDoc(x) : x \in Dids}), s \in SeqChoices(d)}
     \cup {[key |-> "none", data |-> own, seq |-> 0]}
+    \cup (IF NearProofs THEN {[key |-> PadKey(k), data |-> dt, seq |-> s] : k \in Keys, dt \in {own, DeactDoc(d)}, s \in SeqChoices(d)}
+                               \cup {[key |-> k, data |-> DeactCtx(d), seq |-> s] : k \in Keys, s \in SeqChoices(d)}
+           ELSE {})
 
 Relayer == CHOOSE a \in Accts : TRUE
 
@@ -148,6 +157,21 @@ DidCross ==
                                             a \in ce.doc.auth, k \in AuthKeysOf(ce.doc), sq \in {c.seq, ce.seq}}
                        : e \in Dids } : d \in Dids }
 
+\* simulation aid: messages that differ from a VALID update/deactivation of a stored DID in one respect only - the signature carries one more byte,
+\* or the deactivation payload is the stub with a context.  Lenient verification code accepts them; the specification does not.
+DidNear ==
+    IF ~NearProofs THEN {}
+    ELSE UNION { LET c == Cell(didReg, d) IN
+                 IF Status(c) # "active" THEN {}
+                 ELSE UNION { {[type |-> "did.Update", did |-> d, doc |-> dc, vm |-> a.n, vmDid |-> c.doc.id,
+                                proof |-> [key |-> PadKey(k), data |-> dc, seq |-> c.seq], from |-> Relayer] : a \in c.doc.auth, k \in AuthKeysOf(c.doc)} : dc \in DocsOf(d) }
+                      \cup {[type |-> "did.Deactivate", did |-> d, vm |-> a.n, vmDid |-> c.doc.id,
+                             proof |-> [key |-> kk, data |-> dt, seq |-> c.seq], from |-> Relayer] :
+                                 a \in c.doc.auth, kk \in {PadKey(k) : k \in AuthKeysOf(c.doc)} \cup AuthKeysOf(c.doc), dt \in {DeactCtx(d)}}
+                      \cup {[type |-> "did.Deactivate", did |-> d, vm |-> a.n, vmDid |-> c.doc.id,
+                             proof |-> [key |-> PadKey(k), data |-> DeactDoc(d), seq |-> c.seq], from |-> Relayer] : a \in c.doc.auth, k \in AuthKeysOf(c.doc)}
+               : d \in Dids }
+
 PnMsgs ==
     (IF "pnft.CreateDenom" \in Kinds THEN
         {[type |-> "pnft.CreateDenom", id |-> i, actor |-> a, name |-> n, symbol |-> "S", desc |-> "", uri |-> "", hash |-> "", data |-> ""] :
@@ -190,6 +214,7 @@ Msgs == AolMsgs \cup DidMsgs \cup PnMsgs \cup BankMsgs \cup AuthzMsgs
 Pool(n) == IF SimSample = 0 \/ Cardinality(Msgs) <= n THEN Msgs
            ELSE RandomSubset(n, Msgs) \cup RandomSubset(IF Cardinality(DidLikely) < 6 THEN Cardinality(DidLikely) ELSE 6, DidLikely)
                 \cup RandomSubset(IF Cardinality(DidCross) < 2 THEN Cardinality(DidCross) ELSE 2, DidCross)
+                \cup RandomSubset(IF Cardinality(DidNear) < 2 THEN Cardinality(DidNear) ELSE 2, DidNear)
 
 MsgSeqs == {<<m>> : m \in Pool(SimSample)}
            \cup (IF MaxTxLen >= 2 THEN {<<m1, m2>> : m1 \in Pool(SimSample \div 3 + 1), m2 \in Pool(SimSample \div 3 + 1)} ELSE {})
@@ -210,7 +235,7 @@ Txs == UNION { UNION { {[msgs |-> ms, signers |-> sg, fee |-> f, exec |-> ex, fe
 MCDeliver(tx) ==
     /\ ndel < MaxDeliver
     /\ (FailKeep = 1 \/ Outcome(tx).result = "ok" \/ RandomElement(1..FailKeep) = 1
-           \/ (SimSample > 0 /\ Len(tx.msgs) = 1 /\ tx.msgs[1] \in DidCross /\ RandomElement(1..2) = 1))
+           \/ (SimSample > 0 /\ Len(tx.msgs) = 1 /\ tx.msgs[1] \in (DidCross \cup DidNear) /\ RandomElement(1..2) = 1))
     /\ Deliver(tx) /\ ndel' = ndel + 1 /\ HistNext /\ path' = Append(path, act')
 MCEndBlock == height < MaxHeight /\ (BlockKeep = 1 \/ RandomElement(1..BlockKeep) = 1) /\ EndBlock /\ UNCHANGED ndel /\ HistNext /\ path' = Append(path, act')
 MCBegin(m) == "BeginBlock" \in NextKinds /\ BeginBlock(m) /\ UNCHANGED ndel /\ HistNext /\ path' = Append(path, act')
